@@ -302,6 +302,8 @@ class MaterialFile(BaseMaterial):
             elif sub_data_type.startswith('tabulated'):
                 data_file = StringIO(sub_data['data'])
                 arr = np.atleast_2d(np.loadtxt(data_file))
+                # np.interp needs ascending wavelengths; some tables are not
+                arr = arr[np.argsort(arr[:, 0], kind='stable')]
 
                 if sub_data_type == 'tabulated n':
                     self._n_wavelength = arr[:, 0]
